@@ -880,6 +880,9 @@ func c01Corpus() []corr.Case {
 		// a handle that stays open across a rename of its file still is a handle on that file: length changes show on both sides
 		mk("create "+h("/p"), "h.write 0 48656c6c6f", "rename "+h("/p")+" "+h("/r"), "h.write 0 20776f726c64", "stat "+h("/r"), "open "+h("/r"), "h.read 1 16",
 			"openfile "+h("/r")+" 2 420", "h.trunc 2 2", "h.seek 0 0 0", "h.read 0 16", "stat "+h("/r"), "h.writeat 0 5a5a 6", "stat "+h("/r"), "h.seek 1 0 0", "h.read 1 16", "snapshot"),
+		// a directory handle keeps its place in the listing when the directory (or an ancestor) is renamed between two pages
+		mk("mkdirall "+h("/m/inbox")+" 493", "create "+h("/m/inbox/a"), "create "+h("/m/inbox/b"), "create "+h("/m/inbox/c"), "create "+h("/m/inbox/d"), "open "+h("/m/inbox"),
+			"h.readdirnames 4 1", "rename "+h("/m/inbox")+" "+h("/m/outbox"), "h.readdirnames 4 1", "rename "+h("/m")+" "+h("/a"), "h.readdirnames 4 1", "rename "+h("/a/outbox")+" "+h("/a/b"), "h.readdirnames 4 -1", "snapshot"),
 		// a subtree is delimited by path elements, not by a string prefix
 		mk("mkdirall "+h("/d/log")+" 493", "mkdir "+h("/d/logs")+" 493", "create "+h("/d/log.old"), "create "+h("/d/log/x"), "create "+h("/d/logs/keep"),
 			"removeall "+h("/d/log"), "stat "+h("/d/log.old"), "stat "+h("/d/logs/keep"), "snapshot", "rename "+h("/d/logs")+" "+h("/d/l"), "stat "+h("/d/log.old"), "snapshot"),
